@@ -1,5 +1,5 @@
 (* Props/C12.v — The workspace lock gives mutual exclusion.  Statements only. *)
-From RN Require Import Model.Lock Proofs.LockP Proofs.LockClosure.
+From RN Require Import Model.Lock Proofs.LockP Proofs.LockClosure Gen.GenLock.
 
 (* The full statement — for every reachable world of any number of processes at most one is in its
    critical section, and no process removes the lock of a running holder — is FALSE of the faithful
@@ -42,6 +42,15 @@ Theorem C12_drop_releases : forall w p w',
   get_pc (procs w) p = Some PDropRemove -> step w p = Some w' -> lock w' = None.
 Proof. exact drop_releases. Qed.
 
+(* every mutating command goes through a code path that acquires the lock (table regenerated from the
+   source: a command whose handler stops calling LockFile::acquire breaks this computation), and the
+   stale timeout the model uses is the one in lock.rs *)
+Theorem C12_all_mutating_commands_lock : forallb gen_takes_lock gen_mutating_commands = true.
+Proof. vm_compute. reflexivity. Qed.
+Theorem C12_stale_timeout_is_source : stale_secs = gen_stale_secs.
+Proof. vm_compute. reflexivity. Qed.
+
+Print Assumptions C12_all_mutating_commands_lock.
 Print Assumptions C12_mutex_refuted_stale.
 Print Assumptions C12_foreign_removal_refuted.
 Print Assumptions C12_mutex_refuted_aba.
